@@ -115,20 +115,23 @@ theorem C15_zone25_witness :
 /-
 Full statement: the pool's second `_normalize_host` leaves the host `parse_url` returned alone (so that
 `h' = hst` in the theorems above and below).  FALSE for an IPv6 zone id starting with `25`
-(`C15_zone25_witness`).  Proved for the other shapes of host text without a zone id (`StableHost`): a
-lower-case ASCII name that is not a bracketed IPv6 literal (reg-names, incl. A-labels), a dotted
-quad, a lower-case bracketed IPv6 literal without zone.  Not proved: literals with a zone id not
-starting with `25` (checked by the correspondence run), and that `parse_url` only returns such hosts.
+(`C15_zone25_witness`).  Proved for: a lower-case ASCII name that is not a bracketed IPv6 literal
+(reg-names, incl. A-labels), a dotted quad, a lower-case bracketed IPv6 literal without zone
+(`StableHost`), and a bracketed IPv6 literal with lower-case address part and a normal-form zone id that
+does NOT start with `25` + more (`StableZoned` — the exact complement of the finding among zoned
+literals in parsed form).  Not proved: that `parse_url` returns only hosts of these shapes.
 -/
 theorem C15_host_stable_partial (idna : Str → Option Str) (hst s : Str) (hsch : s = http ∨ s = https)
-    (h : StableHost hst) : Url.normalizeHost idna (some hst) (some s) = .ok (some hst) :=
-  normalizeHost_stable idna hst s hsch h
+    (h : StableHost hst ∨ StableZoned hst) : Url.normalizeHost idna (some hst) (some s) = .ok (some hst) := by
+  rcases h with h | h
+  · exact normalizeHost_stable idna hst s hsch h
+  · exact normalizeHost_stable_zoned idna hst s hsch h
 
 /-- hence, for these hosts, the socket is opened to the URL's own host text without its brackets and
 the URL's port (or the scheme default) -/
 theorem C15_connect_target_stable (idna : Str → Option Str) (extra : PoolKey.Ctx) (u : Url.Url) (r : Route)
     (s hst : Str) (hs : u.scheme = some s) (hsch : s = http ∨ s = https) (hh : u.host = some hst)
-    (hp0 : u.port ≠ some 0) (hstab : StableHost hst)
+    (hp0 : u.port ≠ some 0) (hstab : StableHost hst ∨ StableZoned hst)
     (h : routeWith idna none extra u = .ok r) :
     r.dialPort = u.port.getD (schemeDefault s) ∧ r.dialHost = dialName (unbracket hst) ∧
     (hst.head? ≠ some 91 → r.dialHost = hst) ∧
@@ -143,6 +146,11 @@ theorem C15_connect_target_stable (idna : Str → Option Str) (extra : PoolKey.C
 example : StableHost (lit "xn--bcher-kva.example.com.") := Or.inl (by decide +kernel)
 example : StableHost (lit "10.0.0.255") := Or.inr (Or.inl (by decide +kernel))
 example : StableHost (lit "[2001:db8::8:800:200c:417a]") := Or.inr (Or.inr (by decide +kernel))
+example : StableZoned (lit "[fe80::1%eth0]") :=
+  ⟨by decide +kernel, by decide, lit "eth0", by decide, by decide,
+    ⟨[.chr 101, .chr 116, .chr 104, .chr 48], by decide, by decide⟩⟩
+-- the host of the finding is excluded: its zone id "25a" starts with "25"
+example : isPrefix [50, 53] (lit "25a") = true ∧ lit "25a" ≠ [50, 53] := by decide
 example : (Url.parseUrl (lit "http://[2001:DB8::8:800:200C:417A]:8080/")).toOption.map (·.host) =
     some (some (lit "[2001:db8::8:800:200c:417a]")) := by decide +kernel
 
@@ -442,6 +450,21 @@ theorem C15_sync_reachable (idna : Str → Option Str) (proxy : Option ProxyCfg)
 -- non-vacuity: two requests through one manager: the second lands in pool 0 as well
 example : (hop2 none "https://example.com/p" "https://EXAMPLE.com:443/p").toOption.map (·.pool) = some 0 ∧
     (hop2 none "https://example.com/p" "http://example.com/p").toOption.map (·.pool) = some 1 := by
+  decide +kernel
+
+/-- `ProxyManager("https://[::2]:8443")` -/
+def pxV6 : ProxyCfg := ⟨https, some (lit "[::2]"), 8443, false⟩
+
+/-- Not a finding of this property, pinned because it bounds the harness's domain (notes/C15.md): an
+https origin at the address of an https proxy gets the pool key of the proxy's own pool — the
+forwarded http request and the tunnelled https request are served by ONE pool (id 0), in either order.
+The harness therefore never sends such a URL through such a proxy. -/
+theorem C15_origin_is_proxy_same_pool_witness :
+    mkProxy (fun _ => none) (lit "https://[::2]:8443") false = .ok pxV6 ∧
+    (hop2 (some pxV6) "http://example.com/" "https://[::2]:8443/x").toOption.map
+      (fun r => (r.pool, r.connect.isSome)) = some (0, true) ∧
+    (hop2 (some pxV6) "https://[::2]:8443/x" "http://example.com/").toOption.map
+      (fun r => (r.pool, r.connect.isSome)) = some (0, false) := by
   decide +kernel
 
 /-- known finding `equiv:forward:bytes:explicit-default-port`: through a forwarding proxy
